@@ -109,7 +109,7 @@ func (c *c13) one(a *asCfg, k int) {
 	wantRel := []int{-1, 1, 1, 2}[r.Intn(4)]
 	sc, hops := randScenario(a, r, kind, wantRel)
 	// time class
-	tclass := []string{"fresh", "fresh", "fresh", "future", "expired"}[r.Intn(5)]
+	tclass := []string{"fresh", "fresh", "fresh", "future", "expired", "pktts-boundary"}[r.Intn(6)]
 	nowNs := time.Now().UnixNano()
 	var target int64
 	switch tclass {
@@ -122,6 +122,13 @@ func (c *c13) one(a *asCfg, k int) {
 	}
 	ts0 := uint32(target/1e9) - uint32(r.Range(1, 300))
 	epicTS := uint32((target-int64(ts0)*1e9)/21000 - 1)
+	if tclass == "pktts-boundary" {
+		// a freshly created segment (1..2 s old) and the extreme values of the 32-bit packet timestamp:
+		// small ones are fresh, large ones lie hours in the future (no 32-bit wrap of epicTS+1)
+		ts0 = uint32(nowNs/1e9) - 1
+		epicTS = []uint32{0, 1, 2, 1<<31 - 1, 1 << 31, 1<<31 + 1, 0xFFFFFFFE, 0xFFFFFFFF, 0xFFFFFFFF, 0xFFFFFFFF}[r.Intn(10)]
+		tclass = fmt.Sprintf("pktts-%x", epicTS)
+	}
 	b := a.buildPathTs(r, sc, hops, ts0, true)
 	// authenticator: full MAC of the hop validated last
 	vIdx := sc.validated
@@ -335,9 +342,16 @@ func (c *c13) direct() {
 		if r.Chance(50) {
 			pktTs = uint32(r.Intn(200000))
 		}
+		if r.Chance(25) {
+			pktTs = []uint32{0, 1, 2, 1<<31 - 1, 1 << 31, 1<<31 + 1, 0xFFFFFFFE, 0xFFFFFFFF}[r.Intn(8)]
+		}
 		sender := int64(ts0)*1e9 + (int64(pktTs)+1)*21000
 		var now int64
-		switch r.Intn(6) {
+		switch r.Intn(8) {
+		case 6:
+			now = int64(ts0)*1e9 + int64(r.Range(-1000, 3000))*1e6 // the segment was created just now
+		case 7:
+			now = int64(ts0)*1e9 + int64(r.Range(-3, 3)) + []int64{-1e9, 0, 3e9}[r.Intn(3)]
 		case 0:
 			now = sender - 1e9 + int64(r.Range(-3, 3)) // future bound: sender > now + skew
 		case 1:
